@@ -34,6 +34,7 @@ import (
 	"github.com/logrange/logrange/pkg/model"
 	"github.com/logrange/logrange/pkg/model/field"
 	"github.com/logrange/logrange/pkg/model/tag"
+	"github.com/logrange/logrange/pkg/partition"
 	"github.com/logrange/logrange/pkg/pipe"
 	"github.com/logrange/logrange/pkg/utils/verifhook"
 	"github.com/logrange/range/pkg/records"
@@ -789,6 +790,41 @@ func execHistory(h *history, sec *vh.Section, section string, quiet bool) (rp *e
 			if implPos != "none" && implPos != strconv.Itoa(len(r.written[i])) {
 				fail("position-not-advanced", fmt.Sprintf("source %d (%s): at quiescence the pipe's saved position is not the end of the stored data (events the filter rejects must be passed, not re-scanned)", i, tagLine(t)),
 					implPos, strconv.Itoa(len(r.written[i])), "", implPos == modelPos)
+			}
+		}
+	}
+	// the positions FILE at the final quiescence: every saveState writes the whole map, so with no worker running the file
+	// must hold, for every source, the position the pipe has in memory (a clean restart resumes from the file: an older
+	// position there means events copied twice)
+	if r.pipeLive {
+		ds, _ := r.srv.Pipes.VerifC10Descs(h.Name)
+		var file map[string]struct {
+			Pos journal.Pos
+		}
+		data, ferr := os.ReadFile(pipe.VerifC07PipeFileName(r.srv.Cfg.PipesConfig.Dir, h.Name))
+		if ferr == nil && json.Unmarshal(data, &file) == nil {
+			for _, d := range ds {
+				if fp, ok := file[d.Src]; ok && fp.Pos != d.Pos {
+					// not a worker between its write and its saveState: look again a moment later
+					time.Sleep(150 * time.Millisecond)
+					ds2, _ := r.srv.Pipes.VerifC10Descs(h.Name)
+					var file2 map[string]struct {
+						Pos journal.Pos
+					}
+					data2, _ := os.ReadFile(pipe.VerifC07PipeFileName(r.srv.Cfg.PipesConfig.Dir, h.Name))
+					json.Unmarshal(data2, &file2)
+					still := false
+					for _, d2 := range ds2 {
+						if d2.Src == d.Src && d2.Pos == d.Pos && file2[d.Src].Pos == fp.Pos {
+							still = true
+						}
+					}
+					if !still {
+						continue
+					}
+					fail("positions-file-stale", fmt.Sprintf("source %s: at quiescence the positions file holds an older position than the pipe (a clean restart would copy events again)", d.Tags),
+						fmt.Sprint(fp.Pos), fmt.Sprint(d.Pos), "", false)
+				}
 			}
 		}
 	}
@@ -1611,8 +1647,46 @@ func runParkedWriter(c parkedCase, sec *vh.Section) {
 	obs()
 	// writer B: complete write, its notification overtakes A's
 	r := &runner{h: &history{Sources: []map[string]string{{"app": "a1", "grp": "g1"}}}, srv: srv, written: make([][]ev, 1)}
-	if err := r.write(0, evB, "direct"); err != nil {
-		res.Note("parked: write B: %v", err)
+	bDone := make(chan error, 1)
+	go func() { bDone <- r.write(0, evB, "direct") }()
+	select {
+	case err := <-bDone:
+		if err != nil {
+			res.Note("parked: write B: %v", err)
+		}
+	case <-time.After(3 * time.Second):
+		// writer B cannot overtake writer A: the writers of one partition store and publish one after the other (a repair of
+		// F10 serialises them). Then there is no window: A is released, both notifications arrive in stored order, and only
+		// the SPEC is evaluated (all three batches must arrive).
+		res.Dist(sec, "writer B waits for writer A's publication: no window")
+		close(gA.release)
+		<-doneA
+		if err := <-bDone; err != nil {
+			res.Note("parked: write B: %v", err)
+		}
+		evC := mkEvs("c", pre+c.A+c.B, 1)
+		r.write(0, evC, "direct")
+		total := pre + c.A + c.B + 1
+		waitDest(srv, destTags, total, 8*time.Second)
+		settle(srv, name, tl, destTags)
+		dest, _ := readAll(srv, "select from "+destTags)
+		var got, spec []string
+		for _, e := range dest {
+			got = append(got, e.Message)
+		}
+		if pre > 0 {
+			spec = append(spec, "z0", "z1")
+		}
+		for _, e := range append(append(append([]ev{}, evA...), evB...), evC...) {
+			spec = append(spec, e.Msg)
+		}
+		res.Eval(sec, fmt.Sprint(c))
+		res.Dist(sec, c.Variant)
+		if strings.Join(got, " ") != strings.Join(spec, " ") {
+			res.SpecFail(vh.SpecFailure{Section: "parked", Kind: "lost-event", Input: c, Impl: strings.Join(got, " "), Spec: strings.Join(spec, " "),
+				What: "two writers' batches to a source of a pipe, published in stored order: every event must arrive once, in stored order"})
+		}
+		return
 	}
 	want := pre + c.A + c.B // what SPEC demands in the pipe partition at the end
 	// the worker copies what B's notification covers (and, when a descriptor existed, everything it sees)
@@ -1895,6 +1969,45 @@ func sectionParked(rng *vh.Rng, corpus []parkedCase) {
 
 var createdAtCount int64 // churn: events stored in the source when the pipe was last deleted (= not younger than the next creation)
 
+// notifBarrier: a barrier through the pipe service's notificator. The write-event channel is FIFO and has ONE consumer, which
+// handles an event completely (getPipesForSource + every onWriteEvent) before it takes the next. An auxiliary pipe listens to
+// a partition of its own; pass() writes one event there and waits until the auxiliary pipe's descriptor shows it: every write
+// event published before pass() was called has then been handled completely — also one the notificator had already taken
+// from the channel (which "channel empty for n polls" cannot see: on a loaded machine the goroutine can be descheduled
+// between taking the event and looking up the pipes, and a pipe created in between gets a descriptor from an OLD write).
+type notifBarrier struct {
+	srv *lrsrv.Srv
+	n   int
+}
+
+const (
+	auxPipeName = "zzaux"
+	auxTags     = "sentinel=yes"
+)
+
+func newNotifBarrier(srv *lrsrv.Srv) *notifBarrier {
+	if _, err := srv.Pipes.CreatePipe(pipe.Pipe{Name: auxPipeName, TagsCond: auxTags}); err != nil {
+		res.Note("notifBarrier: %v", err)
+	}
+	return &notifBarrier{srv: srv}
+}
+
+func (b *notifBarrier) pass(cap time.Duration) bool {
+	b.n++
+	le := []model.LogEvent{{Timestamp: int64(b.n), Msg: []byte(fmt.Sprintf("sentinel%d", b.n))}}
+	if err := b.srv.Parts.Write(context.Background(), auxTags, &litIt{evs: le}, false); err != nil {
+		res.Note("notifBarrier: write: %v", err)
+		return false
+	}
+	for t0 := time.Now(); time.Since(t0) < cap; time.Sleep(2 * time.Millisecond) {
+		ds, ok := b.srv.Pipes.VerifC10Descs(auxPipeName)
+		if ok && len(ds) > 0 && globalIdx(b.srv, auxTags, ds[0].LastKnwnPos) >= b.n {
+			return true
+		}
+	}
+	return false
+}
+
 type lifecycleCase struct {
 	Variant string `json:"variant"`        // recreate-parked | recreate-free | recreate-after-removal | chain-named | chain-all | client-writes-pipe-partition
 	Name    string `json:"name,omitempty"` // pipe name of the recreate variants (default pr); names the file-name escaping has to treat
@@ -1984,6 +2097,234 @@ func runLifecycle(c lifecycleCase, sec *vh.Section) {
 				Spec: fmt.Sprintf("%v — the first %d without waiting for a later write", want, n0+3), ImplEqModel: true, Finding: "F79",
 				What: "a clean stop while the pipe is behind its source (a notified batch not yet copied): after the restart nothing starts a worker; the events are copied only when a later write to that partition arrives — and a first batch whose descriptor was never saved is never copied"})
 		}
+	case "concurrent-saves":
+		// four sources of one pipe written at the same moment, round after round: their workers are woken by the same flush and
+		// run saveState at about the same time. saveState writes the WHOLE map: after every round, with all workers idle, the
+		// positions file must hold for every source the position the pipe has in memory — a file that is behind would make a
+		// clean restart copy events again.
+		name := "pcs"
+		srv.Pipes.CreatePipe(pipe.Pipe{Name: name, TagsCond: "grp=g1"})
+		dest := destOf(name)
+		fn := pipe.VerifC07PipeFileName(srv.Cfg.PipesConfig.Dir, name)
+		const nsrc = 4
+		stale := ""
+		rounds := 25
+		for round := 0; round < rounds && stale == ""; round++ {
+			start := make(chan struct{})
+			var wg sync.WaitGroup
+			for i := 0; i < nsrc; i++ {
+				wg.Add(1)
+				go func(i int) {
+					defer wg.Done()
+					<-start
+					le := []model.LogEvent{{Timestamp: int64(round), Msg: []byte(fmt.Sprintf("c%d-%d", i, round))}}
+					srv.Parts.Write(context.Background(), fmt.Sprintf("app=c%d,grp=g1", i), &litIt{evs: le}, false)
+				}(i)
+			}
+			close(start)
+			wg.Wait()
+			waitDest(srv, dest, nsrc*(round+1), 10*time.Second)
+			for t0 := time.Now(); !caughtUp(srv, name) && time.Since(t0) < 10*time.Second; {
+				time.Sleep(5 * time.Millisecond)
+			}
+			// two looks 60 ms apart: a worker between its write and its saveState is not a stale file
+			for look := 0; look < 2; look++ {
+				ds, _ := srv.Pipes.VerifC10Descs(name)
+				var file map[string]struct{ Pos journal.Pos }
+				data, _ := os.ReadFile(fn)
+				json.Unmarshal(data, &file)
+				cur := ""
+				for _, d := range ds {
+					if fp, ok := file[d.Src]; ok && fp.Pos != d.Pos {
+						cur += fmt.Sprintf("round %d, source %s: file %v, pipe %v; ", round, d.Tags, fp.Pos, d.Pos)
+					}
+				}
+				if cur == "" || (look == 1 && cur != stale) {
+					stale = ""
+					break
+				}
+				stale = cur
+				time.Sleep(60 * time.Millisecond)
+			}
+		}
+		res.Dist(sec, fmt.Sprintf("concurrent-saves: stale=%v", stale != ""))
+		if stale != "" {
+			res.SpecFail(vh.SpecFailure{Section: "lifecycle", Kind: "positions-file-stale", Input: c, Impl: stale, Spec: "the file holds the pipe's positions",
+				What: "workers of several sources of one pipe saving at the same time: with every worker idle the positions file holds an older position than the pipe — after a clean restart the events in between are copied again"})
+		}
+	case "truncate-behind", "truncate-copied", "delete-source":
+		// the source partition is truncated (whole chunks removed from its head) or deleted while a pipe reads it.
+		// truncate-behind: the pipe is BEHIND the removed region — batch 2 is stored and confirmed but its notification is held
+		// (writer parked at partition.write.beforeNotify), the head chunks up to and including the first chunks of batch 2 are
+		// removed, the writer is released: the worker's saved position lies in a chunk that no longer exists.
+		// truncate-copied: only chunks the pipe has copied are removed, then more is written.
+		// delete-source: everything is removed (the partition is deleted if nobody holds it), then more is written with the same tags.
+		// Demanded: no crash, no hang; the pipe partition = batch 1, then the events of batch 2 that survived the truncation,
+		// then batch 3 — each once, stored order, unaltered.
+		srv.Stop()
+		srvT, err := lrsrv.Start(dir, lrsrv.Opts{WriteFlushMs: 40, MaxChunkSize: 2048})
+		if err != nil {
+			res.Note("lifecycle: %v", err)
+			return
+		}
+		srv = srvT
+		r.srv = srv
+		installWriteHook()
+		name := "pt"
+		srv.Pipes.CreatePipe(pipe.Pipe{Name: name, TagsCond: "grp=g1"})
+		dest := destOf(name)
+		big := func(from, n int) []ev {
+			out := make([]ev, n)
+			for i := range out {
+				out[i] = ev{Ts: int64(from + i), Msg: fmt.Sprintf("t%03d %s", from+i, strings.Repeat("p", 150))}
+			}
+			return out
+		}
+		short := func(es []*api.LogEvent) []string {
+			m := make([]string, len(es))
+			for i, e := range es {
+				m[i] = strings.Fields(e.Message)[0]
+			}
+			return m
+		}
+		chunkSizes := func() (ids []uint64, counts []int, sizes []uint64) {
+			src, _, err := srv.TIndex.GetJournal(tl)
+			if err != nil {
+				res.Note("lifecycle/%s: tag index: %v", c.Variant, err)
+				return
+			}
+			defer srv.TIndex.Release(src)
+			jrnl, err := srv.Journals.GetOrCreate(context.Background(), src)
+			if err != nil {
+				res.Note("lifecycle/%s: journal: %v", c.Variant, err)
+				return
+			}
+			cks, err := jrnl.Chunks().Chunks(context.Background())
+			if err != nil {
+				res.Note("lifecycle/%s: chunks: %v", c.Variant, err)
+			}
+			for _, ck := range cks {
+				ids = append(ids, uint64(ck.Id()))
+				counts = append(counts, int(ck.Count()))
+				sizes = append(sizes, uint64(ck.Size()))
+			}
+			return
+		}
+		b1 := big(0, 30)
+		r.write(0, b1, "direct")
+		waitDest(srv, dest, 30, 10*time.Second)
+		settle(srv, name, tl, dest)
+		stored := 30
+		var g *gate
+		var doneW chan error
+		if c.Variant == "truncate-behind" {
+			g, doneW = parkedWrite(srv, tl, big(30, 40))
+			select {
+			case <-g.arrived:
+			case <-time.After(8 * time.Second):
+				res.Note("lifecycle/%s: the writer did not reach partition.write.beforeNotify", c.Variant)
+				close(g.release)
+				return
+			}
+			stored = 70
+			for t0 := time.Now(); partCount(srv, tl) < stored && time.Since(t0) < 8*time.Second; {
+				time.Sleep(5 * time.Millisecond)
+			}
+		}
+		_, counts, sizes := chunkSizes()
+		keep := map[string]int{"truncate-behind": 2, "truncate-copied": 1, "delete-source": 0}[c.Variant]
+		if len(counts) <= keep+1 && keep > 0 {
+			res.Note("lifecycle/%s: only %d chunks — nothing to truncate", c.Variant, len(counts))
+			if g != nil {
+				close(g.release)
+			}
+			return
+		}
+		maxSize, removed := uint64(0), 0
+		for i := range counts {
+			if i >= len(counts)-keep {
+				maxSize += sizes[i]
+			} else {
+				removed += counts[i]
+			}
+		}
+		if maxSize == 0 {
+			maxSize = 1
+		}
+		tcond, _ := lql.ParseSource("grp=g1")
+		truncOK := vh.WithTimeout(30*time.Second, func() {
+			srv.Parts.Truncate(context.Background(), partition.TruncateParams{TagsExpr: tcond, MaxSrcSize: maxSize, MaxDBSize: 1 << 50}, nil)
+		})
+		_, countsAfter, _ := chunkSizes()
+		left := 0
+		for _, n := range countsAfter {
+			left += n
+		}
+		res.Dist(sec, fmt.Sprintf("%s: %d chunks / %d events before, %d chunks / %d events after (%d events removed)", c.Variant, len(counts), stored, len(countsAfter), left, stored-left))
+		if !truncOK {
+			res.SpecFail(vh.SpecFailure{Section: "lifecycle", Kind: "hang", Input: c, Impl: "Truncate did not return within 30 s", Spec: "returns", What: "truncating a source partition a pipe reads hangs"})
+			return
+		}
+		removed = stored - left
+		if g != nil {
+			close(g.release)
+			<-doneW
+		}
+		var want []string
+		for i := 0; i < 30; i++ {
+			want = append(want, fmt.Sprintf("t%03d", i))
+		}
+		if c.Variant == "truncate-behind" {
+			from := removed
+			if from < 30 {
+				from = 30
+			}
+			for i := from; i < 70; i++ {
+				want = append(want, fmt.Sprintf("t%03d", i))
+			}
+			waitDest(srv, dest, len(want), 10*time.Second)
+			settle(srv, name, tl, dest)
+		}
+		mid := short(mustRead(srv, "select from "+dest))
+		r.write(0, big(100, 5), "direct")
+		for i := 100; i < 105; i++ {
+			want = append(want, fmt.Sprintf("t%03d", i))
+		}
+		waitDest(srv, dest, len(want), 10*time.Second)
+		settle(srv, name, tl, dest)
+		got := short(mustRead(srv, "select from "+dest))
+		ds, _ := srv.Pipes.VerifC10Descs(name)
+		// oracle: `want` (what certainly has to be there: batch 1, the events of batch 2 that survived the truncation, batch 3) is
+		// a subsequence of `got`, `got` is strictly increasing in the written numbering (once, stored order) and holds only
+		// written events. Events of removed chunks MAY be copied (a reader that holds the journal still reads them: observed).
+		kind := ""
+		last, wi := -1, 0
+		for _, m := range got {
+			n, err := strconv.Atoi(strings.TrimPrefix(m, "t"))
+			written := err == nil && ((n >= 0 && n < stored) || (n >= 100 && n < 105))
+			switch {
+			case !written:
+				kind = "extra-event"
+			case n == last:
+				kind = "duplicate-event"
+			case n < last:
+				kind = "order-violated"
+			}
+			last = n
+			if wi < len(want) && m == want[wi] {
+				wi++
+			}
+		}
+		if kind == "" && wi < len(want) {
+			kind = "lost-event"
+		}
+		res.Dist(sec, fmt.Sprintf("%s: %d events of removed chunks copied all the same", c.Variant, len(got)-len(want)))
+		if kind != "" {
+			res.SpecFail(vh.SpecFailure{Section: "lifecycle", Kind: kind, Input: c,
+				Impl: fmt.Sprintf("%d events removed from the head of the source (%d stored before); pipe partition before the last write: %d events, at the end: %v; descriptors: %d", removed, stored, len(mid), clip(strings.Join(got, " ")), len(ds)),
+				Spec: "at least, in this order: " + clip(strings.Join(want, " ")),
+				What: "a source partition truncated (or deleted and written again) under a live pipe: the pipe partition must hold what it had copied, then at least the events that survived the truncation, then the later events — each once, in stored order, nothing else"})
+		}
 	case "churn":
 		// rounds of delete + immediate re-create under one name while a writer keeps the source busy (workers are mid-write
 		// or waiting at every deletion); every other round the clean-up is held for a moment. Watchdog: nothing may hang or
@@ -2027,7 +2368,8 @@ func runLifecycle(c lifecycleCase, sec *vh.Section) {
 			atomic.StoreInt32(&reached, 1)
 		})
 		defer verifhook.Set("pipe.delete.beforeRemove", nil)
-		inherit, inheritEarly, fileBack := 0, 0, 0
+		inherit, inheritEarly, fileBack, undrained := 0, 0, 0, 0
+		barrier := newNotifBarrier(srv)
 		watchdog := func(what string, f func()) bool {
 			p := ""
 			ok := vh.WithTimeout(60*time.Second, func() { p = vh.Recover(f) })
@@ -2062,15 +2404,16 @@ func runLifecycle(c lifecycleCase, sec *vh.Section) {
 			// re-creation, so a descriptor right after CreatePipe can only have been loaded from the positions file; even
 			// rounds: everything keeps running (safety only: a notification in flight may legitimately create a descriptor)
 			paused := i%2 == 1
+			drained := false
 			if paused {
 				atomic.StoreInt32(&pauseW, 1)
-				for empty, t0 := 0, time.Now(); empty < 3 && time.Since(t0) < 5*time.Second; {
-					if srv.Parts.VerifC10WriteEventsQueued() == 0 && atomic.LoadInt32(&inWrite) == 0 {
-						empty++
-					} else {
-						empty = 0
-					}
-					time.Sleep(4 * time.Millisecond)
+				for t0 := time.Now(); atomic.LoadInt32(&inWrite) == 1 && time.Since(t0) < 30*time.Second; {
+					time.Sleep(2 * time.Millisecond)
+				}
+				// every notification of the (now silent) writer has been handled completely — while no pipe `pc` exists
+				drained = atomic.LoadInt32(&inWrite) == 0 && barrier.pass(30*time.Second)
+				if !drained {
+					undrained++
 				}
 			}
 			reachedBefore := atomic.LoadInt32(&reached) == 1
@@ -2080,7 +2423,7 @@ func runLifecycle(c lifecycleCase, sec *vh.Section) {
 				break
 			}
 			if paused {
-				if dl := descLine(srv, name, tl); dl != "none" {
+				if dl := descLine(srv, name, tl); dl != "none" && drained {
 					inherit++
 					if !reachedBefore || fileThere {
 						// the clean-up had not reached the removal yet, or it had and the file was there again (a worker that
@@ -2110,6 +2453,9 @@ func runLifecycle(c lifecycleCase, sec *vh.Section) {
 		close(stopW)
 		wwg.Wait()
 		res.Dist(sec, fmt.Sprintf("churn: inherited=%d (in the class of F74: %d) file-back=%d", inherit, inheritEarly, fileBack))
+		if undrained > 0 {
+			res.Note("lifecycle/churn: %d paused round(s) without a verdict (the notificator did not pass the barrier within 30 s)", undrained)
+		}
 		if inherit > 0 || fileBack > 0 {
 			// both ways into F74 (re-creation before the clean-up removed the file; a finishing worker's saveState bringing the
 			// file back) are closed by 84f34ca: any recurrence is tagged
@@ -2125,6 +2471,7 @@ func runLifecycle(c lifecycleCase, sec *vh.Section) {
 			name = c.Name
 		}
 		res.Dist(sec, fmt.Sprintf("name=%q", name))
+		barrier := newNotifBarrier(srv)
 		if _, err := srv.Pipes.CreatePipe(pipe.Pipe{Name: name, TagsCond: "grp=g1"}); err != nil {
 			res.Note("lifecycle: create %q: %v", name, err)
 			return
@@ -2196,7 +2543,15 @@ func runLifecycle(c lifecycleCase, sec *vh.Section) {
 			r.write(0, mkEvs("e", 3, 2), "direct")
 			srv.FlushWait()
 		}
-		// the same name again: a NEW pipe, created now
+		// the same name again: a NEW pipe, created now — after every notification of the writes so far has been handled (while no
+		// pipe of that name existed), so that whatever the new pipe knows right after CreatePipe can only come from a file
+		if !barrier.pass(30 * time.Second) {
+			res.Note("lifecycle/%s: the notificator did not pass the barrier within 30 s: no verdict", c.Variant)
+			if release != nil && c.Variant == "recreate-parked" {
+				close(release)
+			}
+			return
+		}
 		cleanupFirst := atomic.LoadInt32(&cleanupReached) == 1
 		if _, err := srv.Pipes.CreatePipe(pipe.Pipe{Name: name, TagsCond: "grp=g1"}); err != nil {
 			res.Note("lifecycle: re-create: %v", err)
@@ -2213,6 +2568,30 @@ func runLifecycle(c lifecycleCase, sec *vh.Section) {
 		settle(srv, name, tl, dest)
 		got := msgsOf(mustRead(srv, "select from "+dest))
 		want := []string{"e0", "e1", "e2", fmt.Sprintf("e%d", created)}
+		// MODEL: the incarnation LTS (Model/PipeLtsInc.lean) on the same schedule — the descriptor right after the
+		// re-creation and the pipe's partition over both incarnations
+		{
+			lines := []string{"reset 1 0 true", "src 0 1 " + vh.HxS(tl), "create", "write 0 " + evsLine(mkEvs("e", 0, 3)), "cycle 0", "delete"}
+			if created > 3 {
+				lines = append(lines, "write 0 "+evsLine(mkEvs("e", 3, created-3)), "enqueue 0", "notify")
+			}
+			lines = append(lines, "recreate", "desc 0", "write 0 "+evsLine(mkEvs("e", created, 1)), "cycle 0", "partition", "inc")
+			ans, derr := vh.Batch(args.Driver, lines)
+			if derr != nil {
+				res.Fatal(args.Out, "driver: %v", derr)
+			}
+			mDesc, mPart := modelDesc(ans[len(ans)-5]), ans[len(ans)-2]
+			var mMsgs []string
+			for _, p := range strings.Fields(mPart) {
+				if f := strings.Split(p, ":"); len(f) == 3 {
+					mMsgs = append(mMsgs, string(vh.UnHx(f[1])))
+				}
+			}
+			if mDesc != inherited || strings.Join(mMsgs, " ") != strings.Join(got, " ") {
+				res.Mismatch(vh.Mismatch{Section: "lifecycle", Function: "incarnation LTS: descriptor right after the re-creation | the pipe's partition", Input: c,
+					Impl: fmt.Sprintf("%s | %v", inherited, got), Model: fmt.Sprintf("%s | %v (%s)", mDesc, mMsgs, ans[len(ans)-1])})
+			}
+		}
 		if strings.Join(got, " ") != strings.Join(want, " ") || inherited != "none" {
 			finding := ""
 			// class of F74: a pipe created under the name of a deleted pipe BEFORE that pipe's asynchronous clean-up has removed
@@ -2297,7 +2676,8 @@ func sectionLifecycle(corpus []lifecycleCase) {
 	seen := map[string]bool{}
 	cs := []lifecycleCase{}
 	all := append(corpus, lifecycleCase{Variant: "churn"}, lifecycleCase{Variant: "stop-behind-first-batch"}, lifecycleCase{Variant: "stop-behind-later-batch"}, lifecycleCase{Variant: "recreate-parked"}, lifecycleCase{Variant: "recreate-free"}, lifecycleCase{Variant: "recreate-after-removal"},
-		lifecycleCase{Variant: "chain-named"}, lifecycleCase{Variant: "chain-all"}, lifecycleCase{Variant: "client-writes-pipe-partition"})
+		lifecycleCase{Variant: "chain-named"}, lifecycleCase{Variant: "chain-all"}, lifecycleCase{Variant: "client-writes-pipe-partition"},
+		lifecycleCase{Variant: "truncate-behind"}, lifecycleCase{Variant: "truncate-copied"}, lifecycleCase{Variant: "delete-source"}, lifecycleCase{Variant: "concurrent-saves"})
 	// (names whose tag line needs quoting — blanks, non-ASCII — are C08's business: the pipe's partition could not be queried)
 	for _, n := range []string{"p_r", "p:r", "p/r", "p.dat", "p-r"} {
 		all = append(all, lifecycleCase{Variant: "recreate-after-removal", Name: n})
